@@ -188,11 +188,21 @@ fn history(ctx: &mut Ctx, rng: &mut Rng, base: &Engine, rv: &RefVoice, descr: &s
                 c.set_msd_threshold(i, x);
                 model.thr[i] = limit(x, 0.0, 1.0);
                 calls.push(format!("set_msd_threshold({}, {:e})", i, x));
+                if calls.len() % 3 == 1 {
+                    // looking at the interpolation weights in between changes no setting
+                    let _ = c.get_interporation_weight_mut();
+                    calls.push("get_interporation_weight_mut()".into());
+                }
             }
             3 => {
                 c.set_gv_weight(i, x);
                 model.gvw[i] = if x < 0.0 { 0.0 } else { x };
                 calls.push(format!("set_gv_weight({}, {:e})", i, x));
+                if calls.len() % 3 == 1 {
+                    // looking at the interpolation weights in between changes no setting
+                    let _ = c.get_interporation_weight_mut();
+                    calls.push("get_interporation_weight_mut()".into());
+                }
             }
             4 => {
                 c.set_speed(x);
